@@ -20,7 +20,7 @@ TRUSTED = ['hand-written pass models coq/Passes/Edit.v tied to cvise/passes/*.py
 ASSUMPTIONS = ['main exploration uses CR-free texts; CR / CRLF inputs are exercised separately: the passes rewrite every line end (known finding cr-normalised-outside-edit) and the candidate must still be the edit of the decoded text']
 IMPORTS = ['From CV Require Import Matcher.NM Matcher.NMCorr Passes.Edit Passes.PassCorr.']
 
-TOKENS = ['/***/', '/** d **/', '/* a **/', '/*/', 'a', 'b1', '(', ')', '{', '}', '[', ']', '<', '>', '=', ',', ':', '?', ';', "'x'", '0', '12', '0x1F', '7U', '-3', ' ', ' ', '\n', '\n',
+TOKENS = ['#\n', '#', ' 0xFFFFFFFFFFFFFFFF;', '42;\n', '/***/', '/** d **/', '/* a **/', '/*/', 'a', 'b1', '(', ')', '{', '}', '[', ']', '<', '>', '=', ',', ':', '?', ';', "'x'", '0', '12', '0x1F', '7U', '-3', ' ', ' ', '\n', '\n',
           '# 3 "f.c"\n', '#include <a.h>\n', '// c\n', '/* k */', '/**/', 'while', 'int', 'class', "extern 'C'", 'transparent_crc(a, b)', '\n\n', '#if X\n', '+=', '+']
 
 
@@ -103,7 +103,7 @@ def explore(ctx):
     rnd = random.Random(ctx.seed + 7)
     cs = Cases()
     ntext = 50 if ctx.quick() else 500
-    texts = [gen_text(rnd) for _ in range(ntext)] + ['', '\n', '()', 'a', '(a)\n', '{{}}', "int a = (1 ? 2 : 3);\n", '0x10,', ' 0xfUL;', '# 1 "x"\n# 2 "y"\nz\n']
+    texts = [gen_text(rnd) for _ in range(ntext)] + ['', '\n', '()', 'a', '(a)\n', '{{}}', "int a = (1 ? 2 : 3);\n", '0x10,', ' 0xfUL;', '# 1 "x"\n# 2 "y"\nz\n', '#\n42;\n', '# \n\n7 "f"\n', 'a\n  #\n 3\n', ' class a ; class b ; class c ; class d ; k = x;\n']
     d = os.path.join(ctx.tmp, 'c07')
     os.makedirs(d, exist_ok=True)
     path = os.path.join(d, 'in.c')
